@@ -157,6 +157,29 @@ def special_roots(base, rnd):
     return out
 
 
+def key_twin_pairs(res, rnd, npat, cap):
+    """pairs of positions of D with the same placement, turn, rights and ep file (hence the same Zobrist key) whose castling right on one
+    wing refers to different rooks"""
+    pats = [l for l in run_driver([f"gpattern {res.seed + 31} 0 {npat} 1"]) if l and l != "bad-op"]
+    twins = []
+    for p in pats:
+        P = Pos(p)
+        ksq = (P.piece(5) & P.c0).bit_length() - 1
+        rooks = [f for f in range(8) if (P.piece(3) & P.c0) >> f & 1]
+        for idx, right, cf in ((12, "usK", 16), (13, "usQ", 17)):
+            if P.t[idx] != "1" or ksq < 0 or ksq > 7:
+                continue
+            cur = int(P.t[cf])
+            others = [f for f in rooks if f != cur and ((f > ksq) == (cur > ksq))]
+            if others:
+                t = list(P.t)
+                t[cf] = str(rnd.choice(others))
+                twins.append((p, " ".join(t)))
+    okA = in_domain([a for a, b in twins])
+    okB = in_domain([b for a, b in twins])
+    return [tw for tw, x, y in zip(twins, okA, okB) if x and y][:cap]
+
+
 def run_C03(res):
     THOROUGH[0] = res.tier == "thorough"
     g, pl, sp, co = sizes(res, (12, 60, 60, 40), (500, 120, 4000, 1500))
@@ -181,32 +204,24 @@ def run_C03(res):
         cases.append((p, h, "1", kind, args, det, tag))
     # key twins: same placement, turn, rights and ep file (hence the same key) but a castling right that refers to the OTHER rook of
     # the wing; the table left by a search of one twin is handed to a search of the other (a stored castling move may be illegal there)
-    pats = [l for l in run_driver([f"gpattern {res.seed + 31} 0 {600 if res.tier == 'quick' else 12000} 1"]) if l and l != "bad-op"]
-    twins = []
-    for p in pats:
-        P = Pos(p)
-        ksq = (P.piece(5) & P.c0).bit_length() - 1
-        rooks = [f for f in range(8) if (P.piece(3) & P.c0) >> f & 1]
-        for idx, right, cf in ((12, "usK", 16), (13, "usQ", 17)):
-            if P.t[idx] != "1" or ksq < 0 or ksq > 7:
-                continue
-            cur = int(P.t[cf])
-            others = [f for f in rooks if f != cur and ((f > ksq) == (cur > ksq))]
-            if others:
-                t = list(P.t)
-                t[cf] = str(rnd.choice(others))
-                twins.append((p, " ".join(t)))
-    okA = in_domain([a for a, b in twins])
-    okB = in_domain([b for a, b in twins])
-    twins = [tw for tw, x, y in zip(twins, okA, okB) if x and y][: (40 if res.tier == "quick" else 800)]
-    outA = run_hx_par([f"root {a} {Pos(a).hash} 1 depth {rnd.choice([2, 3])}" for a, b in twins])
-    for (a, b), o in zip(twins, outA):
+    twins = key_twin_pairs(res, rnd, 4000 * res.escalate if res.tier == "quick" else 40000, 320 if res.tier == "quick" else 3000)
+    outA = run_hx_par([f"root {a} {Pos(a).hash} 1 depth {rnd.choice([3, 3, 4])}" for a, b in twins])
+    ncastle = 0
+    for k, ((a, b), o) in enumerate(zip(twins, outA)):
         q = parse_root(o)
         if q["panic"]:
             continue
         tt = "1;" + ";".join(q["tt"].split(";")[1:]) if ";" in q["tt"] else "1"
-        for args, det in (("nodes 0", True), ("depth 0", True), ("movetime 0", False), ("depth 1", True)):
+        # a table that holds a castling move (king onto its own rook) is the interesting one: that move may not exist in the twin
+        own_rooks = Pos(a).piece(3) & Pos(a).c0
+        has_castle = any(len(e.split(",")) == 8 and (own_rooks >> int(e.split(",")[3])) & 1 and (Pos(a).piece(5) >> int(e.split(",")[2])) & 1
+                         for e in tt.split(";")[1:])
+        ncastle += has_castle
+        lims = [("depth 3", True)] + ([("depth 2", True)] if has_castle else [])
+        lims += [(("nodes 0", True), ("depth 0", True), ("movetime 0", False), ("depth 1", True))[k % 4]]
+        for args, det in lims:
             cases.append((b, [Pos(b).hash], tt, args.split()[0], args, det, "key-twin-table"))
+    res.count("key_twin_tables_holding_a_castling_move", ncastle)
     # roots without any legal move (mate / stalemate): the answer must be the null move
     sparse = [l for l in run_driver([f"gsparse {res.seed + 9} {3000 if res.tier == 'quick' else 60000} 0"]) if l and l != "bad-op"]
     nomoves = [p for p, m in zip(sparse, run_driver_par(["moves " + p for p in sparse])) if m == "-"]
@@ -394,6 +409,34 @@ def run_C14(res):
                 res.fail("no bestmove within 10 s for a time-limited search", fen=f, go=args)
             elif over > 0.25:
                 res.fail("time-limited search overran its budget by more than 250 ms", fen=f, go=args, seconds=round(secs, 3))
+    # boundary clocks: a few milliseconds left, with and without movestogo / increments, either side to move. Whatever the
+    # time management does, the answer has to come within the mover's whole remaining clock (+ increment) + 250 ms.
+    combos = []
+    for clock in (1, 5, 19, 20, 35):
+        for extra in ("", " movestogo 0", " movestogo 1", " movestogo 2", " movestogo 40", " winc 10 binc 10"):
+            combos.append((clock, extra))
+    rnd.shuffle(combos)
+    nlow = 0
+    for k, (clock, extra) in enumerate(combos[: (14 if res.tier == "quick" else len(combos))]):
+        f = fens[k % len(fens)] if fens else None
+        if f is None:
+            break
+        args = f"wtime {clock} btime {clock}{extra}"
+        budget = (clock + (10 if "inc" in extra else 0)) / 1000.0
+        best = None
+        for _attempt in range(3):
+            rc, out, err, to, secs = vlib.run_engine(["isready", "position fen " + f, "go " + args, "quit"], "release", timeout=6)
+            best = secs if best is None else min(best, secs)
+            if to or "bestmove" not in out or secs - budget <= 0.25:
+                break
+        res.evaluations += 1
+        nlow += 1
+        worst = max(worst, best - budget)
+        if to or "bestmove" not in out:
+            res.fail("no bestmove within 6 s for a search on a nearly expired clock", fen=f, go=args)
+        elif best - budget > 0.25:
+            res.fail("search on a nearly expired clock overran the mover's whole clock by more than 250 ms", fen=f, go=args, seconds=round(best, 3))
+    res.count("process_level_low_clock_runs", nlow)
     res.coverage["max_overshoot_s_incl_process_startup"] = round(worst, 3)
     res.notes.append("the wall-clock clause is exploration: the model has a stop oracle, not a clock")
 
@@ -425,6 +468,12 @@ def run_C12(res):
     ps = list(dict.fromkeys(ps))
     ok = in_domain(ps)
     ps = [p for p, o in zip(ps, ok) if o][: (150 if res.tier == "quick" else 3000)]
+    # the edge of the quantifier: the same mate positions with the fifty-move counter just below 99 (the key does not depend on it)
+    edge = []
+    for p in ps[: (60 if res.tier == "quick" else 1000)]:
+        edge.append(str(Pos(p).with_(halfmoves=rnd.choice([98, 98, 97, 90]))))
+    res.count("roots_with_clock_90_to_98", len(edge))
+    ps = list(dict.fromkeys(ps + edge))
     roots = [(p, [Pos(p).hash]) for p in ps]
     tts = prefilled_tables(res, roots, rnd, depth=2)
     reqs = []
@@ -561,6 +610,84 @@ def run_C11(res):
                     res.fail("an iteration from depth 2 on does not report the draw score although every move leads to a rule draw", root=p, history=h,
                              kind=tag, depth=x["depth"], observed=x["score"], expected=50)
     res.coverage["draw_score_constants_seen"] = sorted(consts)
+    uci_level_C11(res, rnd)
+
+
+SQN = lambda f, r: "abcdefgh"[f] + str(r + 1)
+
+
+def flip_fen_colour(fen):
+    b, side, ca, ep, h, fm = fen.split()
+    rows = b.split("/")[::-1]
+    return " ".join(["/".join(r.swapcase() for r in rows), "b" if side == "w" else "w", ca, ep, h, fm])
+
+
+def flip_move(m):
+    return m[0] + str(9 - int(m[1])) + m[2] + str(9 - int(m[3])) + m[4:]
+
+
+def long_tour_scripts(rnd, tier):
+    """UCI-level histories for C11's `any length` clause: a king tours a closed path of odd length n while the other king, caged,
+    shuttles between two squares with exactly one legal move each time. After 4n-1 plies (59 … 75) the mover's only move recreates the
+    position of ply 0, whose single earlier occurrence is 4n-1 plies old and still inside the fifty-move window."""
+    tours = [["a1", "b1", "c1", "d1", "e1", "f1", "g1", "h1", "h2", "g2", "f2", "e2", "d2", "c2", "b2"],
+             ["a1", "b1", "c1", "d1", "e1", "f1", "g1", "h1", "h2", "g2", "f2", "e2", "d2", "d3", "c3", "c2", "b2"],
+             ["a1", "b1", "c1", "d1", "e1", "f1", "g1", "h1", "h2", "h3", "g3", "g2", "f2", "e2", "d2", "d3", "c3", "c2", "b2"]]
+    out = []
+    for tour in tours:
+        n = len(tour)
+        for h0 in ((0, 13) if tier == "quick" else (0, 1, 13, 98 - (4 * n - 1))):
+            if h0 + 4 * n - 1 > 98:
+                continue
+            fen = f"7k/8/5PP1/8/8/B7/8/K7 w - - {h0} 40"
+            moves = []
+            for k in range(2 * n):
+                moves.append(tour[k % n] + tour[(k + 1) % n])
+                moves.append("h8g8" if k % 2 == 0 else "g8h8")
+            # two laps (4n plies; n is odd) return to the start; the root is one ply earlier (the caged king to move, exactly one legal move)
+            moves = moves[:-1]
+            only = "g8h8"
+            for flipped in (False, True):
+                f2, m2, o2 = (flip_fen_colour(fen), [flip_move(m) for m in moves], flip_move(only)) if flipped else (fen, moves, only)
+                for prefix in ((False, True) if tier != "quick" or h0 == 0 else (False,)):
+                    if prefix:
+                        # an irreversible pawn move in front of the tour: the history reaches back beyond the last pawn move
+                        pf = "6k1/8/6P1/5P2/8/B7/8/K7 w - - 7 39"
+                        pm = ["f5f6", "g8h8"]
+                        if flipped:
+                            pf, pm = flip_fen_colour(pf), [flip_move(m) for m in pm]
+                        fen3, mv3 = pf, pm + m2
+                    else:
+                        fen3, mv3 = f2, m2
+                    d = rnd.choice([2, 3, 4])
+                    out.append((["isready", f"position fen {fen3} moves " + " ".join(mv3), f"go depth {d}", "quit"], o2, 4 * n - 1))
+    return out
+
+
+def uci_level_C11(res, rnd):
+    from props_uci import process_compare
+    scripts = long_tour_scripts(rnd, res.tier)
+    vlib.cargo_build_bins()
+    process_compare(res, [sc for sc, _, _ in scripts], "UCI transcript of a long reversible tour")
+    for sc, only, plies in scripts:
+        for b in ("release", "checked"):
+            rc, out, err, to, secs = vlib.run_engine(sc, b, timeout=30)
+            res.evaluations += 1
+            res.count("uci_long_tour_runs")
+            res.case(" | ".join(sc)[:200] + b, True, {"script": sc, "build": b, "plies_since_the_repeated_position": plies})
+            if to or rc != 0:
+                continue                      # reported by process_compare
+            scores = [(int(m.group(1)), int(m.group(2))) for m in re.finditer(r"info depth (\d+) .*?score cp (-?\d+)", out)]
+            best = re.search(r"bestmove (\S+)", out)
+            if not best or best.group(1) != only:
+                res.fail("search did not return the (only) legal move after a long reversible tour", script=sc, build=b,
+                         observed=best.group(1) if best else None, expected=only)
+            for d, sc_ in scores:
+                if d >= 2 and sc_ != 50:
+                    res.fail("an iteration from depth 2 on does not report the draw score although the only move recreates a position of the game "
+                             "(UCI level, the earlier occurrence more than 50 plies old)", script=sc, build=b, depth=d, observed=sc_, expected=50)
+            if not any(d >= 2 for d, _ in scores):
+                res.fail("no iteration of depth >= 2 reported", script=sc, build=b)
 
 
 def match_F6(f):
@@ -572,10 +699,18 @@ def run_C19(res):
     g, pl, sp, co = sizes(res, (12, 70, 1500, 300), (200, 120, 40000, 3000))
     rnd = random.Random(res.seed)
     ps = gen_positions(res, g, pl, sp, co)
+    # promotion-captures are the largest single gains a capture tree contains (margin-based prunings are calibrated on a queen):
+    # a dedicated batch of pawn-on-the-seventh patterns next to back-rank pieces, kept in front of the shuffle below
+    npro = 150 * res.escalate if res.tier == "quick" else 1500
+    promo = [l for l in run_driver([f"gpattern {res.seed + 31} 2 {npro} 0", f"gpattern {res.seed + 32} 2 {npro // 3} 1"]) if l and l != "bad-op"]
+    promo = list(dict.fromkeys(promo))
+    ps = promo + [p for p in ps if p not in set(promo)]
     ok = in_domain(ps)
     ps = [p for p, o in zip(ps, ok) if o]
+    promo = set(promo)
     res.coverage["rule"] = ("positions whose capture tree has <= 3000 qsearch nodes; exact value by plain minimax over Spec captures/successors with the engine evaluation; "
-                            "windows: full, around v, excluding v below and above, width 1; non-trivial = the position has at least one legal capture")
+                            "windows: full, around v, excluding v below and above (by 1 … 1600), width 1, and windows placed relative to the static evaluation "
+                            "(eval + 100 … 2000); non-trivial = the position has at least one legal capture")
     # quiescence has no depth bound: a constructed position with many mutually attacking pieces has an astronomically large capture
     # tree. Keep positions with at most 16 men or at most 4 legal captures (the playout positions are kept by the second test mostly).
     feats = run_driver_par(["feat " + p for p in ps])
@@ -584,18 +719,33 @@ def run_C19(res):
     full = run_hx_par([f"qs {p} -10000000 10000000" for p in ps])
     keep = [(p, f) for p, f in zip(ps, full) if f not in ("PANIC", "DIED") and int(f.split()[1]) <= 3000]
     rnd.shuffle(keep)
-    keep = keep[: (400 if res.tier == "quick" else 3000)]
+    keep.sort(key=lambda k: k[0] not in promo)            # the promotion patterns first (stable: the rest stays shuffled)
+    npk = sum(1 for k in keep if k[0] in promo)
+    keep = keep[: (400 if res.tier == "quick" else 3000) + min(npk, 200 if res.tier == "quick" else 1500)]
+    res.count("promotion_pattern_positions", min(npk, len(keep)))
     exact = run_driver_par([f"sqmin {p} {1200 if res.tier == 'quick' else 2000}" for p, _ in keep])
     res.count("capture_trees_too_big_skipped", sum(1 for v in exact if v == "BIG"))
     pairs = [(k, v) for k, v in zip(keep, exact) if v != "BIG"]
     keep = [k for k, v in pairs]
     reqs, meta = [], []
-    for (p, f), v in pairs:
+    evs = run_hx_par(["eval " + p for (p, f), v in pairs])
+    for ((p, f), v), ev in zip(pairs, evs):
         v = int(v)
         if int(f.split()[0]) != v:
             res.fail("full-window quiescence value differs from the minimax value of the capture tree", position=p, observed=f.split()[0], expected=v)
         d = rnd.choice([1, 5, 30, 200])
-        for a, b in ((v - d, v + d), (v + 1, v + 1 + d), (v - 1 - d, v - 1), (v - 1, v), (v, v + 1), (v - 1, v + 1)):
+        d2 = rnd.choice([100, 400, 800, 1600])
+        wins = [(v - d, v + d), (v + 1, v + 1 + d), (v - 1 - d, v - 1), (v - 1, v), (v, v + 1), (v - 1, v + 1),
+                (v - 1 - d2, v - 1), (v + 1, v + 1 + d2)]
+        try:
+            sp = int(ev.split()[0])
+            for mg in rnd.sample([100, 200, 300, 500, 700, 900, 1000, 1200, 1300, 1500, 2000], 3):
+                wins.append((sp + mg, sp + mg + 1))
+                wins.append((sp - mg - 1, sp - mg))
+            wins.append((sp + rnd.choice([900, 1200, 1500]), 10000000))
+        except ValueError:
+            pass
+        for a, b in dict.fromkeys(wins):
             reqs.append(f"qs {p} {a} {b}")
             meta.append((p, a, b, v))
     impl = run_hx_par(reqs)
